@@ -668,6 +668,41 @@ def emit_generated_module(out, src, lo, hi, modpath, contracts, relfile, indent=
             out.log.append({'rule': 'X8', 'fn': modpath or 'top', 'what': 'not extracted: `%s` (public entry point, calls the rule wrapper)' % it.header[:70]})
             continue
         if kind == 'fn':
+            key = (relfile, modpath or '-', name)
+            if ('(|| {' in it.body) and (key in contracts or (relfile, modpath or '-', name + '__iife') in contracts):
+                # X17: the rule wrapper evaluates the rule in an immediately-invoked closure `(|| { BODY })()` that captures
+                # `&mut global` (outside Verus). The closure's body is emitted, verbatim, as a function `<name>__iife` with the
+                # wrapper's own signature, and the wrapper calls it in place of the closure. This is the same program when
+                # `state` and `global` are the closure's only free variables (they are the function's only parameters) and
+                # `state` is not used after the closure - both are checked here.
+                p = it.body.index('(|| {')
+                bo = p + len('(|| ')
+                depth, q = 0, bo
+                while True:
+                    ch = it.body[q]
+                    if ch == '{': depth += 1
+                    elif ch == '}':
+                        depth -= 1
+                        if depth == 0: break
+                    q += 1
+                if not it.body[q + 1:].startswith(')();'): raise LostAnchor('X17: %s: closure is not invoked in place' % name)
+                after = it.body[q + 1 + len(')();'):]
+                if re.search(r'\bstate\b', after): raise LostAnchor('X17: %s: `state` is used after the closure' % name)
+                if it.body.count('(|| {') != 1: raise LostAnchor('X17: %s: more than one immediately-invoked closure' % name)
+                params = re.findall(r'\b(\w+)\s*:', it.header[it.header.index('>(') + 1:])
+                if params[:2] != ['state', 'global'] or len(params) != 2: raise LostAnchor('X17: %s: unexpected parameters %r' % (name, params))
+                inner = it.body[bo + 1:q]
+                hdr = src[it.attrs_end:it.body_open]
+                if len(re.findall(r'\bfn ' + name + r'\b', hdr)) != 1: raise LostAnchor('X17: %s: fn name not found' % name)
+                hdr2 = re.sub(r'\bfn ' + name + r'\b', 'fn ' + name + '__iife', hdr)
+                out.log.append({'rule': 'X17', 'fn': (modpath + '::' if modpath else '') + name, 'what': 'immediately-invoked closure body emitted as fn %s__iife(state, global); the wrapper calls it' % name})
+                for h, b in ((hdr2, inner), (hdr, it.body[:p] + name + '__iife(state, global);' + after)):
+                    isrc = h + '{' + b + '}'
+                    bopen = len(h)
+                    shim = Item(isrc, 0, len(isrc), 0, bopen, bopen, len(isrc) - 1)
+                    emit_fn(out, shim, relfile, modpath or '-', contracts, indent=indent)
+                    out.emit('')
+                continue
             if '(|| {' in it.body or '(||{' in it.body:
                 out.log.append({'rule': 'X8', 'fn': (modpath + '::' if modpath else '') + name, 'what': 'not extracted: rule wrapper (closure capturing &mut global: outside Verus)'})
                 continue
